@@ -256,6 +256,16 @@ class BuiltinMixin:
             v = self.as_slist(list(v))
         if isinstance(v, SSet):
             v = self.bi_list([v], {}, st, node)
+        if isinstance(v, SDict):
+            # sorted(d): the keys, each once (order not modelled): a fresh list whose elements are keys, with an index witness for every key
+            r = fresh(TList(v.kty), "keys")
+            i_ = z3.Int(fresh_name("i"))
+            k_ = z3.Const(fresh_name("k"), sort_of(v.kty))
+            idx = z3.Function(fresh_name("keyidx"), sort_of(v.kty), z3.IntSort())
+            st.pc = st.pc + (r.n >= 0,
+                             z3.ForAll([i_], z3.Implies(z3.And(0 <= i_, i_ < r.n), z3.And(v.dom[r.a[i_]], idx(r.a[i_]) == i_))),
+                             z3.ForAll([k_], z3.Implies(v.dom[k_], z3.And(0 <= idx(k_), idx(k_) < r.n, r.a[idx(k_)] == k_))))
+            return r
         if isinstance(v, SList):
             if isinstance(v.ety, TObj):
                 return self.sorted_perm(v, st, order=False)
